@@ -756,6 +756,11 @@ theorem glue_outcome_before_init_leaks (c : Case) (hpost : ∀ o ∈ c.post, tou
   rw [split, split, keep c.post _ hpost]
   simp [slotLive]
 
+/-- non-vacuity: the slot of "a" is there at the end, also in the executable model -/
+example : slotLive "a" false (outcomeBeforeInit ⟨"a", 0, [.complete "a" 7], [.complete "a" 8, .clear "b"]⟩) = true ∧
+    ((exec init (outcomeBeforeInit ⟨"a", 0, [.complete "a" 7], [.complete "a" 8, .clear "b"]⟩)).1.traces "a").isSome = true := by
+  decide
+
 end glue
 
 end ConfModel.Props.C16
